@@ -149,7 +149,7 @@ def _cases_for(args):
                 if isinstance(sel, Const) and sel.v is None:
                     lab = None
                 elif isinstance(sel, InstV):
-                    lab = sel.attrs["_potential_form"].path[1]
+                    lab = I.getattr(sel, "potential_form").path[1]
                 else:
                     raise AnalysisError("_range_search returned %r" % (sel,))
                 ok_labels = oracle(ranges, r)
@@ -270,9 +270,13 @@ def potable_default(chk, P):
     b.attrs["modifier_registry"] = DictV()
     I.hooks[F.PFORMS + ":potential"] = lambda i, fv, a, k, n: W.param("built")
     mr = I.call(I.getattr(b, "_make_multi_range_tuple"), [res], {})
-    ok = isinstance(mr, InstV) and mr.attrs.get("_range_type").v == ">=" and mr.attrs.get("_start").const() == 5
+    got = None
+    if isinstance(mr, InstV):
+        # through the public properties of Multi_Range_Defn (how it stores them is its own business)
+        got = (I.getattr(mr, "range_type"), I.getattr(mr, "start"))
+    ok = got is not None and isinstance(got[0], Const) and got[0].v == ">=" and isinstance(got[1], Num) and got[1].const() == 5
     chk.ob("C08.O4", "builder passes (marker, start) to Multi_Range_Defn in its parameter order", ok,
-           site=b_cls.lookup("_make_multi_range_tuple").site(), found=mr.attrs if isinstance(mr, InstV) else mr, expect="('>=', 5)",
+           site=b_cls.lookup("_make_multi_range_tuple").site(), found=got if got is not None else mr, expect="('>=', 5)",
            key="C08.O4|builder")
     # 4. grammar: no earlier alternative is a prefix of a later one
     gfi = P.func("atsim.potentials.config._multi_range_parser", "_grammar")
